@@ -50,7 +50,7 @@ func (d *DBFT[H]) sendPrepareRequest(force bool) {
 
 	d.prepareSentTime = d.Timer.Now()
 
-	delay := d.timePerBlock << (d.ViewNumber + 1)
+	delay := d.viewTimeout(d.ViewNumber)
 	if d.ViewNumber == 0 {
 		delay -= d.timePerBlock
 	}
@@ -75,7 +75,7 @@ func (d *DBFT[H]) sendChangeView(reason ChangeViewReason) {
 	}
 
 	newView := d.ViewNumber + 1
-	d.changeTimer(d.timePerBlock << (newView + 1))
+	d.changeTimer(d.viewTimeout(newView))
 
 	nc := d.CountCommitted()
 	nf := d.CountFailed()
